@@ -167,11 +167,21 @@ func (m *Machine) Call(pos token.Pos, fn Value, args []Value) (Value, error) {
 			if len(args) == 0 {
 				return nil, undecided(pos, "method expression %s called without a receiver", fn.Fn.FullName())
 			}
-			return m.CallFunc(pos, fn.Fn, args[0], args[1:])
+			recv := args[0]
+			if fn.Sel != nil && len(fn.Sel.Index()) > 1 {
+				// a promoted method: the receiver is the embedded value the path leads to
+				var err error
+				if recv, err = m.embeddedRecv(pos, recv, fn.Sel); err != nil {
+					return nil, err
+				}
+			}
+			return m.CallFunc(pos, fn.Fn, recv, args[1:])
 		}
 		return m.CallFunc(pos, fn.Fn, fn.Recv, args)
 	case *Closure:
 		return m.callBody(pos, fn.Info, fn.Env, nil, nil, fn.Lit.Type, fn.Lit.Body, args)
+	case *Native:
+		return fn.Fn(args)
 	case *Unknown:
 		return nil, undecided(pos, "call of unknown function value (%s)", fn.Why)
 	}
@@ -567,6 +577,48 @@ func (m *Machine) exec(fr *frame, s ast.Stmt) (ctrl, Value, error) {
 			m.Notes = append(m.Notes, Note{Rule: "H-MAPRANGE", Key: "map-range@" + m.Prog.Pos(s.Pos()), Pos: s.Pos(), Msg: "range over a map during interpretation"})
 			keys = append(keys, x.Keys...)
 			vals = append(vals, x.Vals...)
+		case *Closure, *FuncV:
+			// range over an iterator function: the body is the yield function
+			var retC ctrl
+			var retV Value
+			yield := &Native{Fn: func(args []Value) (Value, error) {
+				inner := &frame{vars: map[types.Object]*Value{}, parent: fr, info: info}
+				for k, e := range []ast.Expr{s.Key, s.Value} {
+					if e == nil || k >= len(args) {
+						continue
+					}
+					id, ok := e.(*ast.Ident)
+					if ok && id.Name == "_" {
+						continue
+					}
+					if s.Tok == token.DEFINE && ok {
+						inner.declare(info.Defs[id], copyVal(args[k]))
+						continue
+					}
+					if err := m.store(inner, e, args[k]); err != nil {
+						return nil, err
+					}
+				}
+				c, v, err := m.execBlock(inner, s.Body.List)
+				if err != nil {
+					return nil, err
+				}
+				switch c {
+				case ctrlReturn:
+					retC, retV = c, v
+					return false, nil
+				case ctrlBreak:
+					return false, nil
+				}
+				return true, nil
+			}}
+			if _, err := m.Call(s.Pos(), x, []Value{yield}); err != nil {
+				return 0, nil, err
+			}
+			if retC == ctrlReturn {
+				return retC, retV, nil
+			}
+			return ctrlNone, nil, nil
 		default:
 			return 0, nil, undecided(s.Pos(), "range over %s", Show(x))
 		}
@@ -1051,7 +1103,7 @@ func (m *Machine) eval(fr *frame, e ast.Expr) (Value, error) {
 		if sel, ok := info.Selections[e]; ok {
 			if sel.Kind() == types.MethodExpr {
 				if fn, ok := sel.Obj().(*types.Func); ok {
-					return &FuncV{Fn: fn, MethodExpr: true}, nil
+					return &FuncV{Fn: fn, MethodExpr: true, Sel: sel}, nil
 				}
 			}
 			x, err := m.eval(fr, e.X)
@@ -2026,4 +2078,31 @@ func (m *Machine) opaqueCall(pos token.Pos, o *Opaque, name string, args []Value
 		return ext(m, pos, o, args)
 	}
 	return nil, undecided(pos, "method %s of a %s value has no model", name, o.Kind)
+}
+
+// embeddedRecv walks the embedded fields a promoted method is reached through.
+func (m *Machine) embeddedRecv(pos token.Pos, x Value, sel *types.Selection) (Value, error) {
+	cur := x
+	idx := sel.Index()
+	for _, fi := range idx[:len(idx)-1] {
+		var st *Struct
+		switch c := cur.(type) {
+		case *Ptr:
+			st = c.Elem
+		case *Struct:
+			st = c
+		default:
+			return nil, undecided(pos, "embedded receiver of %s in %s", sel.Obj().Name(), Show(cur))
+		}
+		stt, ok := st.Type.Underlying().(*types.Struct)
+		if !ok || fi >= stt.NumFields() {
+			return nil, undecided(pos, "embedded field index out of range on %s", Show(cur))
+		}
+		v, ok := st.Fields[stt.Field(fi).Name()]
+		if !ok {
+			return nil, undecided(pos, "embedded field %s is not populated in the abstract environment", stt.Field(fi).Name())
+		}
+		cur = v
+	}
+	return cur, nil
 }
